@@ -169,6 +169,53 @@ def check_vector(v):
             if raw[0] != "ok" or raw[1][len(_header()):] != want_bytes:
                 rep("BAM records written back (%s) are not the original record bytes" % sel_name, "write-bytes-" + sel_name,
                     len(want_bytes), str(raw)[:200] if raw[0] != "ok" else len(raw[1]) - len(_header()))
+    # table programs on the records (C04/C05 for BAM): selections, a selection of a selection, concatenation, lazy and eager reading
+    def sel_of(kind, m):
+        return {"tail": slice(1, None), "rev": slice(None, None, -1), "list": [m - 1, 0, 0], "mask": np.arange(m) % 2 == 0, "empty": slice(0, 0)}[kind]
+
+    def pick(rows, kind):
+        m = len(rows)
+        sl = sel_of(kind, m)
+        if kind == "list":
+            return [rows[i] for i in sl]
+        if kind == "mask":
+            return [r for r, keep in zip(rows, sl) if keep]
+        return rows[sl]
+    for lazy in (True, False):
+        for k1 in ("tail", "rev", "list", "mask", "empty"):
+            def prog1():
+                t = bnp.open(path, lazy=lazy).read()
+                return _project(t[sel_of(k1, len(t))])
+            o = outcome(prog1)
+            n += 1
+            if o[0] != "ok" or not _same(pick(exp, k1), o[1]):
+                rep("a selection of BAM records does not hold the selected records", "select-" + k1, len(pick(exp, k1)), str(o)[:300], lazy=lazy)
+        for k1, k2 in (("rev", "tail"), ("list", "mask"), ("mask", "rev")):
+            def prog2():
+                t = bnp.open(path, lazy=lazy).read()
+                a = t[sel_of(k1, len(t))]
+                b = a[sel_of(k2, len(a))]
+                c = np.concatenate([b, a])
+                return _project(b), _project(c), _project(a), c
+            ea = pick(exp, k1)
+            eb = pick(ea, k2)
+            o = outcome(prog2)
+            n += 1
+            if o[0] != "ok" or not (_same(eb, o[1][0]) and _same(eb + ea, o[1][1]) and _same(ea, o[1][2])):
+                rep("selection of a selection / concatenation of BAM records differs from the selected records",
+                    "program-%s-%s" % (k1, k2), len(eb + ea), str(o)[:300], lazy=lazy)
+            elif lazy and eb + ea:
+                # the joined records written and read again
+                def write_joined():
+                    out_c = os.path.join(d, "o_prog_%s_%s.bam" % (k1, k2))
+                    with bnp.open(out_c, "w") as w:
+                        w.write(o[1][3])
+                    return _project(bnp.open(out_c).read())
+                ow = outcome(write_joined)
+                n += 1
+                if ow[0] != "ok" or not _same(eb + ea, ow[1]):
+                    rep("a concatenation of BAM records cannot be written back as those records", "write-concatenated", len(eb + ea), str(ow)[:200],
+                        kind="raises" if ow[0] != "ok" else "values")
     # write back in pieces: an empty piece, then one record at a time (one header, every record once, in order)
     out_path = os.path.join(d, "o_pieces.bam")
 
